@@ -276,6 +276,9 @@ func genEqPair(t *rapid.T, optSets []string, withPrecision bool) PairCase {
 		b = gen.DupSome(t, gen.Permute(t, a, 70), 30)
 	case mode < 60:
 		b = gen.Edit(t, a, p)
+	case mode < 64:
+		// the smallest possible differences: adjacent floats, strings that differ in their last byte
+		b = nearTwins(t, a)
 	case mode < 68:
 		// the same keys and the same values, differently paired
 		b = gen.SwapValues(t, a, 60)
@@ -304,6 +307,30 @@ func genEqPair(t *rapid.T, optSets []string, withPrecision bool) PairCase {
 		}
 	}
 	return PairCase{A: val.JSON(a), B: val.JSON(b), Opts: opts}
+}
+
+// nearTwins replaces some scalars by their nearest neighbours.
+func nearTwins(t *rapid.T, v val.V) val.V {
+	switch x := v.(type) {
+	case []val.V:
+		out := make([]val.V, len(x))
+		for i, e := range x {
+			out[i] = nearTwins(t, e)
+		}
+		return out
+	case map[string]val.V:
+		out := map[string]val.V{}
+		for _, k := range val.Keys(x) {
+			out[k] = nearTwins(t, x[k])
+		}
+		return out
+	}
+	if gen.Chance(t, "twin", 35) {
+		if nv, ok := gen.NearScalar(t, v); ok {
+			return nv
+		}
+	}
+	return v
 }
 
 // stripNulls replaces nulls by a string so that merge preconditions hold.
